@@ -184,6 +184,15 @@ class Shaper:
         if isinstance(st, (ast.For, ast.comprehension)):
             if is_name(st.target, name):
                 it = st.iter
+            elif isinstance(st.target, ast.Tuple) and any(is_name(x, name) for x in st.target.elts):
+                # `for a, b in ((x1, y1), (x2, y2), ..)`: position-wise over a literal table (possibly bound to a name once)
+                k = next(i for i, x in enumerate(st.target.elts) if is_name(x, name))
+                tbl = st.iter
+                if isinstance(tbl, ast.Name):
+                    ds = [v for _, v in assignments(func, tbl.id) if v is not None]
+                    tbl = ds[0] if len(ds) == 1 and len(assignments(func, tbl.id)) == 1 else None
+                if isinstance(tbl, (ast.Tuple, ast.List)) and tbl.elts and all(isinstance(r, (ast.Tuple, ast.List)) and len(r.elts) == len(st.target.elts) for r in tbl.elts):
+                    return A.alt(*[self.shape(r.elts[k], func, depth) for r in tbl.elts])
         if it is None:
             self.unknown.append((st, f"binding of {name}"))
             return A.ANY
